@@ -9,13 +9,15 @@
    (adjacent literal chunks are merged and empty ones dropped, so equal records <=> equal
    template text).  A converter is [k, nd, hasLo, lo, hasHi, hi, fin]: k is the converter
    identifier ("" = none, "int", "float", "uuid", "dt", "path"), nd = required number of
-   digits (-1 = any), lo/hi = bounds, fin = finite floats only.
+   digits (-1 = any), lo/hi = inclusive bounds (whole numbers, also for float), fin = finite floats only.
 
    What a converter's *parser* accepts (CPython int(), float(), uuid.UUID(), strptime()) is not
    re-specified here: CT is the trusted table, computed by the harness with CPython itself
    over every substring of the instance's path segments:
-        CT.int[s]   = [n |-> int(s), fin |-> TRUE, v |-> chars of str(int(s))]      where int(s) succeeds
-        CT.float[s] = [n |-> 0, fin |-> isfinite(float(s)), v |-> chars of str(float(s))]
+        CT.int[s]   = [n |-> int(s), n2 |-> int(s), nan |-> FALSE, fin |-> TRUE, v |-> chars of str(int(s))]
+                      where int(s) succeeds
+        CT.float[s] = [n |-> floor(x), n2 |-> ceil(x), nan |-> isnan(x), fin |-> isfinite(x), v |-> chars of str(x)]
+                      where x = float(s) succeeds (infinities: n = n2 = the largest / smallest integer)
         CT.uuid[s], CT.dt[s] likewise (v = str() of the value)
    The converter *rules* on top of the parser (surrounding blanks, digit count, bounds,
    finiteness) are specified below. *)
@@ -44,10 +46,12 @@ Convert(c, s) ==
                /\ (c.hasLo => CT.int[s].n >= c.lo)
                /\ (c.hasHi => CT.int[s].n <= c.hi)
             THEN Val("int", CT.int[s].v) ELSE None
-      [] c.k = "float" ->
+      [] c.k = "float" ->                   \* bounds are whole numbers here; NaN compares false with every bound
             IF /\ s \in DOMAIN CT.float
                /\ Trimmed(s)
                /\ (c.fin => CT.float[s].fin)
+               /\ (c.hasLo => (CT.float[s].nan \/ CT.float[s].n  >= c.lo))      \* x >= lo  <=>  floor(x) >= lo
+               /\ (c.hasHi => (CT.float[s].nan \/ CT.float[s].n2 <= c.hi))      \* x <= hi  <=>  ceil(x)  <= hi
             THEN Val("float", CT.float[s].v) ELSE None
       [] c.k = "uuid" -> IF s \in DOMAIN CT.uuid THEN Val("uuid", CT.uuid[s].v) ELSE None
       [] c.k = "dt"   -> IF s \in DOMAIN CT.dt THEN Val("dt", CT.dt[s].v) ELSE None
